@@ -398,7 +398,7 @@ func wrapErrorsLastRule(p *Prog, r *Report) {
 			}
 			return true
 		})
-		if strings.HasPrefix(s, "append(e, "+k[1]) {
+		if strings.HasPrefix(s, "append(errPath, "+k[1]) {
 			r.OK(site, p.PosStr(f.Decl.Pos()), "append(path, "+k[1]+"…): adds its element at the end")
 		} else {
 			r.Bad(site, p.PosStr(f.Decl.Pos()), "does not append a "+k[1]+" at the end of the path")
